@@ -195,18 +195,21 @@ Section Bind.
       assert (E' : match check_records bals (a_expect a) (a_cnt a) with
                    | None => None
                    | Some (expect', cnt') =>
-                       match write_balances bals (a_accts a) (a_res a), write_kvs kvs (a_kvs a) with
-                       | Some (accts', res'), Some kvs' =>
+                       match write_balances bals (a_accts a) (a_res a), write_kvs kvs (a_kvs a),
+                             write_rows oa (a_oa a), write_rows orp (a_orp a) with
+                       | Some (accts', res'), Some kvs', Some oa', Some orp' =>
                            Some (mkA true (a_version a) (a_blkround a) (a_totals a) expect' cnt' accts' res' kvs'
-                                     (a_oa a ++ oa) (a_orp a ++ orp) (a_sp a)
+                                     oa' orp' (a_sp a)
                                      (a_hashes a ++ flat_map record_hashes bals ++ map (fun e => leafK (fst e) (snd e)) kvs))
-                       | _, _ => None
+                       | _, _, _, _ => None
                        end
                    end = Some a').
       { destruct bals, kvs, oa, orp; try exact E; discriminate. }
       clear E. destruct (check_records bals (a_expect a) (a_cnt a)) as [[expect' cnt']|] eqn:Ec; [|discriminate].
       destruct (write_balances bals (a_accts a) (a_res a)) as [[accts' res']|] eqn:Ew; [|discriminate].
       destruct (write_kvs kvs (a_kvs a)) as [kvs'|] eqn:Ek; [|discriminate].
+      destruct (write_rows oa (a_oa a)) as [oa'|]; [|discriminate].
+      destruct (write_rows orp (a_orp a)) as [orp'|]; [|discriminate].
       inversion E'; subst a'. clear E'. destruct HI as [HP HK].
       pose proof (write_kvs_in _ _ _ Ek) as Hkv.
       assert (HKw : forall x, Kof (a_kvs a) x -> Kof kvs' x).
